@@ -136,7 +136,7 @@ func (c *Ctx) ruleR1() {
 										// allowed only inside the size argument of make
 										for i := len(stack) - 2; i >= 0; i-- {
 											if mc, ok := stack[i].(*ast.CallExpr); ok {
-												if mid, ok := mc.Fun.(*ast.Ident); ok && mid.Name == "make" {
+												if mid, ok := mc.Fun.(*ast.Ident); ok && mid.Name == "make" && makesChan(pk.TypesInfo, mc) {
 													okUse = true
 												}
 												break
@@ -208,7 +208,7 @@ func onlyMakeSizes(info *types.Info, f *ast.File, obj types.Object) bool {
 			case *ast.BinaryExpr, *ast.ParenExpr:
 				continue
 			case *ast.CallExpr:
-				if mid, isM := p.Fun.(*ast.Ident); isM && mid.Name == "make" && len(p.Args) >= 2 {
+				if mid, isM := p.Fun.(*ast.Ident); isM && mid.Name == "make" && len(p.Args) >= 2 && makesChan(info, p) {
 					good = true
 				}
 			}
@@ -441,4 +441,18 @@ func (c *Ctx) ruleR5R6(r *shape.Result, fi *load.FuncInfo) {
 			}
 		}
 	}
+}
+
+// makesChan: the make call creates a channel (the capacity of an input may size a new channel,
+// nothing else: a slice sized by cap(c) makes the result depend on the caller's buffering).
+func makesChan(info *types.Info, call *ast.CallExpr) bool {
+	if len(call.Args) == 0 {
+		return false
+	}
+	t := info.TypeOf(call.Args[0])
+	if t == nil {
+		return false
+	}
+	_, ok := t.Underlying().(*types.Chan)
+	return ok
 }
